@@ -2,6 +2,7 @@ import Lean.Data.Json
 import PV.IC10.Parse
 import PV.Src.Lang
 import PV.Model.Labels
+import PV.Model.AllocCheck
 /-! Driver commands that execute programs: `run-ic10`, `run-src`, `equiv`. -/
 namespace PV.DriverRun
 open Lean PV.IC10 PV.IC10.Parse
@@ -91,6 +92,9 @@ partial def runMon (env : Env Float) (P : List (Instr PReg Float)) (budget : Nat
     | none => m
   runMon env P (budget - 1) s'' m' (steps + 1)
 
+def natListOfJson (j : Json) : Except String (List Nat) := do
+  (← j.getArr?).toList.mapM (fun x => x.getNat?)
+
 def initSt : St PReg Float :=
   { regs := fun _ => 0.0, mem := fun _ => 0.0, pc := 0, trace := [], halted := false }
 
@@ -111,6 +115,7 @@ def runIc10 (j : Json) : Except String Json := do
       ("trace", Json.arr (s.trace.reverse.map jEff).toArray),
       ("halted", Json.bool s.halted), ("pc", Json.num (JsonNumber.fromNat s.pc)), ("steps", Json.num (JsonNumber.fromNat n)),
       ("sp", jFloat (s.regs 16)),
+      ("regs", Json.arr (((match j.getObjVal? "dump" with | .ok d => (natListOfJson d).toOption.getD [] | .error _ => []).map (fun r => Json.str (toString (s.regs r)))).toArray)),
       ("call_violations", Json.arr (m.violations.map Json.str).toArray),
       ("max_depth", Json.num (JsonNumber.fromNat m.maxDepth)),
       ("lines", Json.num (JsonNumber.fromNat pp.prog.length))])
@@ -341,5 +346,110 @@ def labelsCompare (j : Json) : Except String Json := do
     | none => pure (Json.mkObj [("verdict", Json.str "same"), ("lines", Json.num (JsonNumber.fromNat spec.length)),
         ("labels", Json.num (JsonNumber.fromNat defs.length)), ("duplicate_labels", Json.arr (dups.map Json.str).toArray),
         ("spec_text", jl spec)])
+
+/-! ### C04: allocation validator and side-by-side execution -/
+
+/-- successors of a line that can be read off the instruction (targets given as literals / labels); `none` = indirect -/
+def staticSuccs (pc : Nat) (i : Instr PReg Float) : Option (List Nat) :=
+  let tgt (o : Opnd PReg Float) : Option Nat := match o with
+    | .num v => FloatSem.toAddr v
+    | .reg _ => none
+  let rel (o : Opnd PReg Float) : Option Nat := match o with
+    | .num v => FloatSem.toAddr (FloatSem.alu "add" [Float.ofNat pc, v])
+    | .reg _ => none
+  match i.kind with
+  | .jmp | .jal => (i.args.head?.bind tgt).map (fun n => [n])
+  | .br c => (i.args.getLast?.bind tgt).map (fun n => if c == "always" then [n] else [pc + 1, n])
+  | .brq _ _ => (i.args.getLast?.bind tgt).map (fun n => [pc + 1, n])
+  | .brr c => (i.args.getLast?.bind rel).map (fun n => if c == "always" then [n] else [pc + 1, n])
+  | .hcf | .bad _ => some []
+  | _ => some [pc + 1]
+
+def checkAlloc (j : Json) : Except String Json := do
+  let text ← j.getObjValAs? String "text"
+  let mapJ ← (← j.getObjVal? "map").getArr?
+  let table ← mapJ.toList.mapM (fun p => do
+    let a ← p.getArr?
+    pure ((← (a[0]!).getNat?), (← (a[1]!).getNat?)))
+  let liveIn ← (← (← j.getObjVal? "live_in").getArr?).toList.mapM natListOfJson
+  let liveOut ← (← (← j.getObjVal? "live_out").getArr?).toList.mapM natListOfJson
+  let indirectJ ← (← j.getObjVal? "indirect").getArr?
+  let indirect ← indirectJ.toList.mapM (fun p => do
+    let a ← p.getArr?
+    pure ((← (a[0]!).getNat?), (← natListOfJson a[1]!)))
+  match parseProgram text with
+  | .error e => pure (Json.mkObj [("verdict", Json.str "parse-error"), ("detail", Json.str e)])
+  | .ok pp =>
+    let ρ : Nat → Nat := fun r => match table.find? (·.1 == r) with | some (_, p) => p | none => r
+    let liA := liveIn.toArray
+    let loA := liveOut.toArray
+    let C : PV.AllocCheck.Cert Nat := { liveIn := fun pc => liA.getD pc [16, 17], liveOut := fun pc => loA.getD pc [16, 17] }
+    let bad := pp.prog.zipIdx.find? (fun (i, pc) => !PV.AllocCheck.okAt ρ C pc i)
+    match bad with
+    | some (i, pc) =>
+      -- which clause
+      let clash := (PV.AllocCheck.defs i).filterMap (fun d => ((C.liveOut pc).find? (fun v => v != d && ρ v == ρ d)).map (fun v => (d, v)))
+      pure (Json.mkObj [("verdict", Json.str "reject"), ("line", Json.num (JsonNumber.fromNat pc)),
+        ("reason", Json.str (if clash.isEmpty then "certificate-inconsistent" else "clash")),
+        ("clash", Json.arr (clash.map (fun (d, v) => Json.arr #[Json.num (JsonNumber.fromNat d), Json.num (JsonNumber.fromNat v), Json.num (JsonNumber.fromNat (ρ d))])).toArray)])
+    | none =>
+      -- every static edge, and every declared successor of an indirect jump, must be covered
+      let edgeBad := pp.prog.zipIdx.findSome? (fun (i, pc) =>
+        let succs := match staticSuccs pc i with
+          | some l => l
+          | none => ((indirect.find? (fun (q : Nat × List Nat) => q.1 == pc)).map (fun (q : Nat × List Nat) => q.2)).getD []
+        (succs.find? (fun n => n < pp.prog.length && !PV.AllocCheck.succOk C pc n)).map (fun n => (pc, n)))
+      let undeclared := pp.prog.zipIdx.filter (fun (i, pc) => (staticSuccs pc i).isNone && (indirect.find? (fun (q : Nat × List Nat) => q.1 == pc)).isNone)
+      match edgeBad with
+      | some (pc, n) => pure (Json.mkObj [("verdict", Json.str "reject"), ("line", Json.num (JsonNumber.fromNat pc)), ("reason", Json.str "edge"),
+          ("to", Json.num (JsonNumber.fromNat n))])
+      | none =>
+        if !undeclared.isEmpty then
+          pure (Json.mkObj [("verdict", Json.str "reject"), ("reason", Json.str "indirect-jump-without-declared-successors"),
+            ("line", Json.num (JsonNumber.fromNat ((undeclared.head?.map (·.2)).getD 0)))])
+        else
+          pure (Json.mkObj [("verdict", Json.str "accept"), ("lines", Json.num (JsonNumber.fromNat pp.prog.length)),
+            ("indirect", Json.num (JsonNumber.fromNat indirect.length))])
+
+/-- run two programs with the same line structure side by side on the same environment and compare line, stack pointer,
+    trace and halting status after every step -/
+partial def runPairLoop (env : Env Float) (P Q : List (Instr PReg Float)) (indirect : List (Nat × List Nat)) (budget : Nat)
+    (s t : St PReg Float) (n : Nat) : Nat × Option String × Bool :=
+  if budget == 0 || (s.halted && t.halted) then (n, none, false) else
+  let s' := compactRegs (step FloatSem.sem env P s)
+  let t' := compactRegs (step FloatSem.sem env Q t)
+  let s' := compactMem s'
+  let t' := compactMem t'
+  -- the soundness theorem's side condition: an indirect jump of the ORIGINAL program must land on a declared successor;
+  -- an execution that leaves them (index out of range in a jump table, …) is outside the compared domain
+  let outside := match indirect.find? (fun (q : Nat × List Nat) => q.1 == s.pc) with
+    | some (_, succs) => !s'.halted && !succs.contains s'.pc
+    | none => false
+  if outside then (n, none, true)
+  else if s'.pc != t'.pc then (n, some s!"after step {n} (line {s.pc}): next line {s'.pc} vs {t'.pc}", false)
+  else if s'.halted != t'.halted then (n, some s!"after step {n} (line {s.pc}): halted {s'.halted} vs {t'.halted}", false)
+  else if s'.trace.length != t'.trace.length || !((s'.trace.head?.bind (fun a => t'.trace.head?.map (fun b => effEq a b))).getD true) then
+    (n, some s!"after step {n} (line {s.pc}): the effect performed differs", false)
+  else runPairLoop env P Q indirect (budget - 1) s' t' (n + 1)
+
+def runPair (j : Json) : Except String Json := do
+  let a ← j.getObjValAs? String "a"
+  let b ← j.getObjValAs? String "b"
+  let seed ← j.getObjValAs? Nat "seed"
+  let steps ← j.getObjValAs? Nat "steps"
+  let pool ← poolOf (← j.getObjVal? "pool")
+  match parseProgram a, parseProgram b with
+  | .error e, _ => pure (Json.mkObj [("verdict", Json.str "parse-error-a"), ("detail", Json.str e)])
+  | _, .error e => pure (Json.mkObj [("verdict", Json.str "parse-error-b"), ("detail", Json.str e)])
+  | .ok pa, .ok pb =>
+    let indirect ← match j.getObjVal? "indirect" with
+      | .ok ij => (← ij.getArr?).toList.mapM (fun p => do
+          let a ← p.getArr?
+          pure ((← (a[0]!).getNat?), (← natListOfJson a[1]!)))
+      | .error _ => pure []
+    let (n, r, outside) := runPairLoop (envF seed pool) pa.prog pb.prog indirect steps initSt initSt 0
+    match r with
+    | some why => pure (Json.mkObj [("verdict", Json.str "diverge"), ("detail", Json.str why), ("steps", Json.num (JsonNumber.fromNat n))])
+    | none => pure (Json.mkObj [("verdict", Json.str (if outside then "outside-declared-successors" else "same")), ("steps", Json.num (JsonNumber.fromNat n))])
 
 end PV.DriverRun
